@@ -340,6 +340,27 @@ pub fn oracle(ctx: &mut Ctx) {
             st.fail("no-dump", format!("binary rejected a documented flag vector: {}", args.join(" ")), replay);
             continue;
         };
+        // the manual's preset table, read off MANUAL.txt ("-o <level>"), wherever no explicit option overrides it
+        if let Some(level) = fv.tokens.iter().find_map(|t| t.strip_prefix("o=")) {
+            let overridden = |p: &str| fv.tokens.iter().any(|t| t.starts_with(p));
+            let table: &[(&str, u8, &[u8], bool)] = &[
+                ("0", 5, &[], true), ("1", 10, &[], true), ("2", 11, &[0, 1, 6, 7], true), ("3", 11, &[0, 7, 8, 9], false),
+                ("4", 12, &[0, 7, 8, 9], false), ("5", 12, &[0, 1, 2, 5, 6, 7, 8, 9], false),
+                ("6", 12, &[0, 1, 2, 3, 4, 5, 6, 7, 8, 9], false), ("max", 12, &[0, 1, 2, 3, 4, 5, 6, 7, 8, 9], false),
+            ];
+            if let Some((_, zc, filters, fast)) = table.iter().find(|r| r.0 == level) {
+                let mut wrong: Vec<String> = vec![];
+                if !overridden("zc=") && !overridden("Z") && o.deflate != Ok(*zc) { wrong.push(format!("compression {:?}, the manual says --zc {}", o.deflate, zc)); }
+                if !overridden("f=") && !filters.is_empty() {
+                    let mut got = o.filter.clone(); got.sort();
+                    if got != *filters { wrong.push(format!("filters {:?}, the manual says {:?}", got, filters)); }
+                }
+                if !overridden("fast") && o.fast_evaluation != *fast { wrong.push(format!("fast evaluation {}, the manual says {}", o.fast_evaluation, fast)); }
+                if wrong.is_empty() { st.count("preset_table_ok"); } else {
+                    st.fail("preset-table", format!("-o {} gives {} ({})", level, wrong.join("; "), args.join(" ")), replay.clone());
+                }
+            }
+        }
         let Some(lib) = lib_expected(&case.input, &o) else {
             st.count("library_error");
             continue;
